@@ -649,7 +649,7 @@ def _add_construct_kind(b, rng, params, cfg, level, kind):
         cands = []
         for ci in range(ncand):
             if shared and rng.random() < 0.4:
-                c = b.pick(1, exclude=used | set(cands))
+                c = b.pick(1, exclude=used | set(cands) | {'n0'})   # the input node itself is never a candidate
                 if c:
                     cands.append(c[0])
                     continue
@@ -666,17 +666,17 @@ def gen_constructs(rng, cfg, faults=True, n_max=9, **kw):
     b.faults = faults
     b.new([])
     n_main = rng.randint(2, max(2, n_max - 3))
-    if rng.random() < 0.4:
+    if cfg.get('force_small') or rng.random() < 0.4:
         # small programs: the interplay of two constructs is denser when little else is going on
         n_main = rng.randint(2, 3)
-        cfg = dict(cfg, p_construct=0.8)
+        cfg = dict(cfg, p_construct=cfg.get('p_construct_small', 0.8))
     placed = 0
     for i in range(n_main):
         last = i == n_main - 1
         k = rng.choice([1, 1, 2, 2, 3]) if i else 1
         params = b.in_params(b.pick(k))
         want = rng.random() < cfg.get('p_construct', 0.45) or (last and placed == 0)
-        if want and len(b.nodes) < 16:
+        if want and len(b.nodes) < 18:
             params = _add_construct(b, rng, params, cfg, 0)
             placed += 1
             if rng.random() < 0.2 and len(b.nodes) < 14:
@@ -803,6 +803,11 @@ CFG = {
     'oneof_shared': {'name': 'oneof_shared', 'constructs': ['oneof'], 'shared': True, 'p_nest': 0.2, 'max_nest': 1},
     'mix_main': {'name': 'mix_main', 'constructs': ['switch', 'oneof'], 'shared': False, 'p_nest': 0.25, 'max_nest': 2,
                  'nest_same_kind': True, 'public_deciders': True, 'unknown_label': True, 'p_read_decider': 0.25},
+    # deep nesting: a construct inside the sub-pipeline of a case / candidate of a construct inside ... (3 levels),
+    # with labels without a case and failures at the innermost level
+    'nest3': {'name': 'nest3', 'constructs': ['switch', 'oneof'], 'shared': False, 'p_nest': 0.75, 'max_nest': 3,
+              'public_deciders': True, 'p_read_decider': 0.1, 'unknown_label': True, 'force_small': True,
+              'p_construct_small': 0.7, 'p_shared_prefix': 0.2},
     'switch_oneof': {'name': 'switch_oneof', 'constructs': ['switch', 'oneof'], 'shared': False, 'p_nest': 0.3,
                      'max_nest': 2, 'public_deciders': True, 'p_read_decider': 0.2, 'unknown_label': True},
 }
